@@ -187,7 +187,19 @@ fn block(b: &Block, v: &Variant, after_para: bool) -> Vec<String> {
                     format!("{}{} ", n + 1, if v.ordered_paren { ')' } else { '.' })
                 };
                 let pad = " ".repeat(marker.len());
-                let lines = blocks(item, v, true);
+                let mut lines = blocks(item, v, true);
+                // "- ---" / "* ***" are themselves rules: a rule that opens an item (directly or through leading
+                // bullet markers) is written with underscores
+                if let Some(first) = lines.first_mut() {
+                    let rest = first.trim_start_matches(|c: char| c == '-' || c == '*' || c == '+' || c == ' ');
+                    if rest.is_empty() && first.chars().filter(|c| *c != ' ').count() >= 3 {
+                        let keep = first.len() - first.trim_start_matches(|c: char| c == ' ').len();
+                        let body: String = first[keep..].to_string();
+                        // keep leading list markers ("- " pairs), replace the trailing rule characters
+                        let markers: String = body.split(' ').take_while(|t| t.len() == 1).map(|t| format!("{} ", t)).collect();
+                        *first = format!("{}{}___", " ".repeat(keep), markers);
+                    }
+                }
                 if n > 0 && !v.tight {
                     out.push(String::new());
                 }
